@@ -73,7 +73,7 @@ Print Assumptions C10_accepted_traces_are_model_traces.
 (* non-vacuity: a schedule in which the second child, added by a growth reload beyond the initial
    channel capacity, fails; Run() takes the failure and returns ErrRunnableFailed joined with it *)
 Definition ex_pool : params :=
-  mkParams [mkSpec 0 UntilRunDone Free RWC; mkSpec 1 NonBlocking Free RWC] false false.
+  mkParams [mkSpec 0 UntilRunDone Free RWC; mkSpec 1 NonBlocking Free RWC] true true false.
 Definition ex_sched : list label :=
   [LRunCall; LRunBegin; LBootLock ORun; LCb ORun (CbSome [(0, 0)]%N); LBootLaunch ORun; LToRunning;
    LKRun 0 0%N;
@@ -88,7 +88,7 @@ Proof. reflexivity. Qed.
 
 Definition ex_sched2 : list label :=
   firstn 23 ex_sched ++
-  [LKExit 2 1%N (Some (Wrap (Join [Errs.Leaf 5; Errs.Leaf 6]%N))); LKSend 2; LSelErr; LStopBegin ORun;
+  [LKExit 2 1%N (Some (Wrap (Join [Errs.Leaf 5; Errs.Leaf 6]%N))); LKSend 2; LSelErr; LTearLock; LStopBegin ORun;
    LWCall 1 1%N; LWRet 1 1%N; LWCall 2 0%N; LKExit 1 0%N None; LWUnblock 2; LWRet 2 0%N;
    LStopJoin ORun; LRunExit].
 
